@@ -43,11 +43,18 @@ def main():
         demo_files = meta.get("demo_file")
         demo_files = [demo_files] if isinstance(demo_files, str) else (demo_files or [])
         def put_demo():
+            import glob as _glob
+            cand_tests = sorted(_glob.glob(os.path.join(cand, "*_test.go")) + _glob.glob(os.path.join(cand, "*.go")))
+            cand_tests = sorted(set(cand_tests))
             for df in demo_files:
                 src = os.path.join(cand, os.path.basename(df))
+                if not os.path.exists(src) and len(demo_files) == 1 and len(cand_tests) == 1:
+                    src = cand_tests[0]  # the agent kept a generic name (demo_test.go) in its output directory
                 if os.path.exists(src):
                     os.makedirs(os.path.dirname(os.path.join(wt, df)), exist_ok=True)
                     shutil.copyfile(src, os.path.join(wt, df))
+                else:
+                    res.setdefault("demo_missing", []).append(df)
         def rm_demo():
             for df in demo_files:
                 p = os.path.join(wt, df)
@@ -61,7 +68,8 @@ def main():
             rm_demo()
             if not no_existing and meta.get("existing_tests_cmd"):
                 t0 = time.time()
-                cmd = meta["existing_tests_cmd"]
+                import re as _re0
+                cmd = _re0.split(r"\s+\(", meta["existing_tests_cmd"])[0].strip()  # drop trailing prose in parentheses
                 if "go test" in cmd and "-timeout" not in cmd:
                     cmd = cmd.replace("go test", "go test -timeout 90m", 1)
                 rc, out = sh(cmd, cwd=wt, env=env, timeout=6000)
